@@ -676,7 +676,7 @@ Section Vocab.
 
   (** values that conform to a declared type under the published schema (Wire.Xml.field_conf:
       occurrence and nillable constraints, leaves in the domain of the leaf codec), with
-      instances of subclasses admitted when [poly]; every member an element member *)
+      instances of subclasses allowed when [poly]; every member an element member *)
   Fixpoint pconf (fuel : nat) (t : ty) (v : val) : bool :=
     match fuel with
     | O => false
